@@ -10,7 +10,7 @@ func genTCPConn(r *Rng, cfg []cfgKey, focus string) tcpConnSpec {
 	sp := tcpConnSpec{Kind: "honest", ConnectOK: true, Fin: r.Chance(55), Seed: uint32(r.U64()), Seg: r.Intn(3), TFirst: r.Bool()}
 	pick := cfg[r.Intn(len(cfg))]
 	sp.C, sp.S = pick.C, pick.S
-	sp.Key = fmt.Sprintf("%s/%s", cipherNames[sp.C], secretStr(sp.S))
+	sp.Key = fmt.Sprintf("%d/%d", sp.C, sp.S)
 	sp.AKind = []int{0, 0, 1, 2, 3}[r.Intn(5)]
 	sizes := []int{0, 1, 2, 15, 16, 17, 100, 100, 1000, 1000, 4000}
 	if r.Chance(12) {
@@ -76,11 +76,15 @@ func genTCPConn(r *Rng, cfg []cfgKey, focus string) tcpConnSpec {
 			if !sp.Coalesce {
 				nw++
 			}
-			if nw < 2 {
-				sp.Chunks = append(sp.Chunks, [2]int{30, 4})
+			for nw < 3 { // data must follow the corrupted chunk: that is when a drain matters
+				sp.Chunks = append(sp.Chunks, [2]int{30 + nw, 4})
 				nw++
 			}
 			sp.Corrupt = 2 + r.Intn(nw-1) // never the chunk that carries the address
+			if r.Chance(70) && sp.Corrupt == nw {
+				sp.Corrupt = nw - 1
+			}
+			sp.CorruptLen = r.Bool()
 		}
 	case c < probeW+postW+dialW:
 		if r.Bool() {
